@@ -1,6 +1,7 @@
 (** Case type and checker for the C13 correspondence run (evaluated with vm_compute).
     Weights are exact Gaussian rationals. *)
-From Qib Require Export Compact.CompactModel Pauli.PauliCheck.
+From Qib Require Export Pauli.PauliCheck.
+From Qib Require Export Compact.CompactModel.
 From Coq Require Import QArith.
 Local Open Scope Z_scope.
 
